@@ -98,6 +98,10 @@ func (s *boardSession) run() {
 
 	s.zt = board.NewZobristTable(ztSeed)
 	s.start = Starts[si].FEN
+	if quietAfter < 0 && t.Chance(1, 5) {
+		s.start = Scatter(t.Choose)
+		s.res.Probe("scattered-start-position")
+	}
 	s.res.Tracef("zobrist=%d start=%q ops=%d", ztSeed, s.start, nOps)
 
 	g, err := rules.NewGame(s.start)
@@ -165,7 +169,27 @@ func (s *boardSession) run() {
 			s.res.Tracef("b%d push %s", l.id, m.UCI())
 			in := l.cur.Describe(m)
 			s.probeMove(l, in, m)
+			if s.want("C02") {
+				// the move arriving as text (as Engine.Move and the UCI driver take it): parsed, then matched
+				// against the generated moves with Move.Equals; it must be this move and no other
+				if cand, err := board.ParseMove(m.UCI()); err == nil {
+					for _, x := range l.b.Position().PseudoLegalMoves(l.b.Turn()) {
+						if !cand.Equals(x) {
+							continue
+						}
+						if x != rm {
+							s.res.Violate("C02", "text-move-played-as-another", s.step, "in %q the move text %q, parsed and matched against the generated moves with Move.Equals, is played as %v; the rules prescribe %v", l.cur.FEN4(), m.UCI(), x, rm)
+							return
+						}
+						break
+					}
+				}
+			}
 			if !l.b.PushMove(rm) {
+				if s.want("C02") {
+					s.res.Violate("C02", "legal-move-refused", s.step, "in %q the legal move %s is refused (own king in check after it, says the position; the rules say it is not): no successor at all", l.cur.FEN4(), m.UCI())
+					return
+				}
 				s.res.Discarded = fmt.Sprintf("PushMove rejects legal move %s in %s", m.UCI(), l.cur.FEN4())
 				return
 			}
@@ -192,6 +216,10 @@ func (s *boardSession) run() {
 			s.res.Tracef("b%d push-illegal %s", l.id, bridge.ModelMove(rm).UCI())
 			s.res.Fault("reject")
 			if l.b.PushMove(rm) {
+				if mm := bridge.ModelMove(rm); s.want("C02") && leavesKingAttacked(&l.cur, mm) {
+					s.res.Violate("C02", "attack-view-disagree", s.step, "in %q the move %s is played although it leaves the mover's king attacked: the check query disagrees with the placement", l.cur.FEN4(), mm.UCI())
+					return
+				}
 				s.res.Discarded = fmt.Sprintf("PushMove accepts illegal move %s in %s", bridge.ModelMove(rm).UCI(), l.cur.FEN4())
 				return
 			}
@@ -273,6 +301,16 @@ func (s *boardSession) run() {
 			return
 		}
 	}
+}
+
+// leavesKingAttacked: m obeys piece movement in p but leaves the mover's own king attacked.
+func leavesKingAttacked(p *rules.Pos, m rules.Move) bool {
+	for _, x := range p.PseudoOnly() {
+		if x == m {
+			return true
+		}
+	}
+	return false
 }
 
 func (s *boardSession) key(a, b int) [2]int {
@@ -502,6 +540,13 @@ func (s *boardSession) checkC02(l *live, op string, before *board.Position, befo
 				s.res.Violate("C02", "attack-view-disagree", s.step, "IsAttacked(%v,%v)=%v disagrees with the placement in %q", c, sq, a, l.cur.FEN4())
 				return
 			}
+		}
+	}
+	// the check query is one more attack view
+	for c := board.ZeroColor; c < board.NumColors; c++ {
+		if got, want := pos.IsChecked(c), l.cur.InCheck(c == board.White); got != want {
+			s.res.Violate("C02", "attack-view-disagree", s.step, "IsChecked(%v)=%v, by the placement the king is attacked=%v (IsAttacked on its square says %v) in %q", c, got, want, pos.IsAttacked(c, pos.KingSquare(c)), l.cur.FEN4())
+			return
 		}
 	}
 	// (3) FEN of the successor
